@@ -6,6 +6,8 @@ fork point explored by re-execution under a decision prefix (DFS).
 """
 from __future__ import annotations
 
+import sys as _sys
+_sys.set_int_max_str_digits(0)
 import fractions
 import math
 import time
